@@ -27,7 +27,7 @@ from menpo.transform.rbf import R2LogR2RBF, R2LogRRBF
 
 SKIP = ("__empty__",)
 POOL = 7
-NAMES = ["g", "left eye", "PTS", "Ünï"]
+NAMES = ["g", "left eye", "PTS", "Ünï", ""]     # the empty string is a str like any other
 OWNER_KINDS = gen.SHAPE_KINDS + gen.IMAGE_KINDS
 OTHER_KINDS = gen.HOMOG_KINDS + gen.ALIGN_KINDS + ["ThinPlateSplines", "PiecewiseAffine", "TransformChain", "WithDims",
                                                    "R2LogR2RBF", "R2LogRRBF", "LinearVectorModel", "MeanLinearVectorModel",
@@ -150,11 +150,19 @@ class Ownership(Machine):
                         lambda: "groups %r expected %r" % (names, list(c.groups)))
             if not ok:
                 continue
+            got = {}
             for nm in names:
-                ctx.require(dg(m[nm]) == c.groups[nm], "owned_copy", "stored_group_differs_from_what_was_stored",
+                try:
+                    got[nm] = m[nm]
+                except Exception as ex:
+                    ctx.fail("manager", "stored_group_cannot_be_read", "manager[%r] (groups %r) raised %r" % (nm, names, ex))
+            if len(got) != len(names):
+                continue
+            for nm in names:
+                ctx.require(dg(got[nm]) == c.groups[nm], "owned_copy", "stored_group_differs_from_what_was_stored",
                             lambda: "group %r of %s no longer equals the value that was stored" % (nm, c.kind))
             if len(names) >= 1:
-                nd = {m[nm].n_dims for nm in names}
+                nd = {got[nm].n_dims for nm in names}
                 ctx.require(len(nd) == 1, "manager", "mixed_dimensions", lambda: repr(nd))
         ctx.out([(c.kind, c.digest, list(c.groups) if c.groups is not None else None) for c in self.pool])
         ctx.state(sorted((c.kind, tuple(c.groups) if c.groups is not None else (), c.d) for c in self.pool))
@@ -302,7 +310,21 @@ class Ownership(Machine):
             return
         m = self._mgr(tgt)
         n = len(tgt.groups)
-        if op["how"] % 2 == 0:
+        if op["how"] % 5 == 4:
+            # a name that is not there is never resolved to something else
+            absent = [x for x in NAMES if x not in tgt.groups]
+            if absent:
+                nm = absent[op["name"] % len(absent)]
+                ctx.probe("absent_name_looked_up")
+                try:
+                    g = m[nm]
+                    ctx.fail("manager", "absent_name_resolved", "manager[%r] returned a %s although the groups are %r" % (nm, type(g).__name__, list(tgt.groups)))
+                except KeyError:
+                    ctx.ok()
+                except Exception as ex:
+                    ctx.fail("manager", "absent_name_wrong_error", "manager[%r] with groups %r raised %r" % (nm, list(tgt.groups), ex))
+                ctx.require(nm not in m, "manager", "contains_absent_name")
+        elif op["how"] % 2 == 0:
             ctx.probe("none_key_%d" % min(n, 2))
             try:
                 g = m[None]
